@@ -195,7 +195,7 @@ def run(mnemonics, profiles=("dev", "release")):
     for profile in profiles:
         try:
             mir = dump_mir(profile)
-            text = mir2smt.parse_function(mir, r"::operate\(_1: &MathOp")
+            text = mir2smt.parse_function(mir, r"::operate\(_1: &(?:[\w:]+::)?MathOp")
             fn = mir2smt.Function(text)
         except (mir2smt.Unsupported, RuntimeError) as e:
             for m in mnemonics:
